@@ -6,15 +6,19 @@
 # list of unique couples with sum of weights equal s. 
 # result is not "optimal" by any means, it is just the
 # first recursive solution encountered.
-def exactsum(l,s,i=0,r=[]):
+def exactsum(l,s,i=0,r=None):
+    if r is None:
+        # top-level call: collect the couples in a fresh list
+        r = []
+        return r if exactsum(l,s,i,r) else False
     n = len(l)
     if s==0: return True
     if s<0 or i==n: return False
-    if exactsum(l,s-l[i][1],i+1):
-        r.append(l[i]) #lgtm [py/modification-of-default-value]
-        return True if i else r
+    if exactsum(l,s-l[i][1],i+1,r):
+        r.append(l[i])
+        return True
     else:
-        return exactsum(l,s,i+1)
+        return exactsum(l,s,i+1,r)
 
 # a simple version of dynamic programming method
 # to find a minimal-length list of couples from l
